@@ -234,7 +234,7 @@ class LogicDense(torch.nn.Module):
                 else:
                     raise ValueError(self.forward_sampling)
             else:
-                x = (x > 0).to(torch.float32)
+                x = (x > 0).to(x.dtype)
         return x
 
     def _check_gumbel_temperature(self):
